@@ -377,17 +377,36 @@ package nbs
 
 // findOffsets: on the normal return every request is either marked found or |remaining| is reported, so the
 // caller goes on to consult the other tables (batched reads agree with single reads).
+//@ func verif_foMatch
+//@   pure
+// Completeness, as for hasMany below: whenever index entry tGJ holds the address of request tGK (for EVERY such
+// pair), a normal return has marked that request found (and so queued a read for it).
 //@ func (tableReader).findOffsets
 //@   property C01 C06
+//@   requires len(tr.prefixes) < 1<<32
+//@   requires forall t in 1..len(tr.prefixes): tr.prefixes[t-1] <= tr.prefixes[t]
+//@   requires 0 <= verif_ghost.tGJ && verif_ghost.tGJ < len(tr.prefixes) ==> forall t in 0..len(tr.prefixes): (t <= verif_ghost.tGJ ==> tr.prefixes[t] <= tr.prefixes[verif_ghost.tGJ]) && (t >= verif_ghost.tGJ ==> tr.prefixes[t] >= tr.prefixes[verif_ghost.tGJ])
+//@   requires 0 <= verif_ghost.tGK && verif_ghost.tGK < len(reqs) ==> forall t in 0..len(reqs): t <= verif_ghost.tGK ==> reqs[t].prefix <= reqs[verif_ghost.tGK].prefix
 //@   ensures  err == nil && gcb == gcBehavior_Continue ==> forall k in 0..len(reqs): !reqs[k].found ==> remaining
+//@   ensures  err == nil && gcb == gcBehavior_Continue && verif_foMatch(tr, reqs) ==> reqs[verif_ghost.tGK].found
 //@   loop 1
-//@     invariant filterLen == uint32(len(tr.prefixes)) && filterIdx <= filterLen
+//@     invariant filterLen == uint32(len(tr.prefixes)) && filterIdx <= filterLen && 0 <= rangeidx && rangeidx <= len(reqs)
 //@     invariant forall k in 0..i: !reqs[k].found ==> remaining
+//@     invariant verif_foMatch(tr, reqs) && rangeidx <= verif_ghost.tGK ==> int(filterIdx) <= verif_ghost.tGJ
+//@     invariant verif_foMatch(tr, reqs) && verif_ghost.tGK < rangeidx ==> reqs[verif_ghost.tGK].found
 //@   loop 2
-//@     invariant filterLen == uint32(len(tr.prefixes)) && filterIdx <= j && j <= filterLen
-//@   loop 3
-//@     invariant filterLen == uint32(len(tr.prefixes)) && filterIdx <= filterLen && filterIdx <= j && 0 <= i && i < len(reqs)
+//@     invariant filterLen == uint32(len(tr.prefixes)) && filterIdx <= j && j <= filterLen && 0 <= i && i < len(reqs)
+//@     invariant j < filterLen ==> tr.prefixes[j] >= req.prefix
 //@     invariant forall k in 0..i: !reqs[k].found ==> remaining
+//@     invariant verif_foMatch(tr, reqs) && i <= verif_ghost.tGK ==> int(filterIdx) <= verif_ghost.tGJ
+//@     invariant verif_foMatch(tr, reqs) && verif_ghost.tGK < i ==> reqs[verif_ghost.tGK].found
+//@   loop 3
+//@     invariant filterLen == uint32(len(tr.prefixes)) && filterIdx < filterLen && filterIdx <= j && 0 <= i && i < len(reqs) && tr.prefixes[filterIdx] == req.prefix
+//@     invariant forall k in 0..i: !reqs[k].found ==> remaining
+//@     invariant j > filterIdx ==> tr.prefixes[j-1] == req.prefix
+//@     invariant verif_foMatch(tr, reqs) && i < verif_ghost.tGK ==> int(filterIdx) <= verif_ghost.tGJ
+//@     invariant verif_foMatch(tr, reqs) && verif_ghost.tGK < i ==> reqs[verif_ghost.tGK].found
+//@     invariant verif_foMatch(tr, reqs) && i == verif_ghost.tGK && !reqs[i].found ==> int(j) <= verif_ghost.tGJ
 
 // hasMany: when it reports nothing remaining, every requested address was marked present.
 // Completeness: whenever index entry tGJ holds the address of request tGK (for EVERY such pair, see verif_ghost),
@@ -1072,3 +1091,55 @@ package nbs
 //@   ensures  result1 == nil ==> verif_ghost.gHMCount > 0
 //@   ensures  result1 == nil && verif_ghost.gHMLastEmpty ==> len(result0) == 0
 //@   also_modifies verif_ghost.gHMCount, verif_ghost.gHMLast, verif_ghost.gHMLastEmpty, verif_ghost.gHMLastStore, verif_ghost.gHMGhost
+
+// ---- batched reads from the chunk journal: bytes are returned under the address they were looked up for (C01)
+
+//@ func verif_jrOff
+//@   pure
+//@   opaque
+//@ func verif_jrLen
+//@   pure
+//@   opaque
+//@ func verif_jrDictOff
+//@   pure
+//@   opaque
+//@ func verif_jrDictLen
+//@   pure
+//@   opaque
+
+//@ func (rangeIndex).get
+//@   property C01
+//@   trusted Go maps are opaque to the engine: the range recorded for an address is a function of the two maps and the address
+//@   modifies nothing
+//@   ensures ok ==> rng.Offset == verif_jrOff(idx.novel, idx.cached, h) && rng.Length == verif_jrLen(idx.novel, idx.cached, h) && rng.DictOffset == verif_jrDictOff(idx.novel, idx.cached, h) && rng.DictLength == verif_jrDictLen(idx.novel, idx.cached, h)
+
+// getManyCompressed: every queued journal read is labelled with the request it was looked up for: a valid request
+// index, and exactly the range the index records for THAT request's address. (The reads are then sorted by offset
+// with sort.Slice, which is trusted to permute, and each worker reads rec.r under the address reqs[rec.idx].a.)
+//@ func (journalChunkSource).getManyCompressed
+//@   property C01
+//@   requires s.journal != nil && eg != nil
+//@   requires forall k in 0..len(reqs): reqs[k].a != nil
+//@   at call Slice: assert forall k in 0..len(jReqs): 0 <= jReqs[k].idx && jReqs[k].idx < len(reqs) && reqs[jReqs[k].idx].found
+//@   at call Slice: assert forall k in 0..len(jReqs): jReqs[k].r.Offset == verif_jrOff(s.journal.ranges.novel, s.journal.ranges.cached, *reqs[jReqs[k].idx].a) && jReqs[k].r.Length == verif_jrLen(s.journal.ranges.novel, s.journal.ranges.cached, *reqs[jReqs[k].idx].a)
+//@   at call Slice: assert forall k in 0..len(jReqs): jReqs[k].r.DictOffset == verif_jrDictOff(s.journal.ranges.novel, s.journal.ranges.cached, *reqs[jReqs[k].idx].a) && jReqs[k].r.DictLength == verif_jrDictLen(s.journal.ranges.novel, s.journal.ranges.cached, *reqs[jReqs[k].idx].a)
+//@   loop 1
+//@     invariant 0 <= rangeidx && rangeidx <= len(reqs) && s.journal != nil
+//@     invariant forall k in 0..len(jReqs): 0 <= jReqs[k].idx && jReqs[k].idx < rangeidx && reqs[jReqs[k].idx].found
+//@     invariant forall k in 0..len(jReqs): jReqs[k].r.Offset == verif_jrOff(s.journal.ranges.novel, s.journal.ranges.cached, *reqs[jReqs[k].idx].a) && jReqs[k].r.Length == verif_jrLen(s.journal.ranges.novel, s.journal.ranges.cached, *reqs[jReqs[k].idx].a)
+//@     invariant forall k in 0..len(jReqs): jReqs[k].r.DictOffset == verif_jrDictOff(s.journal.ranges.novel, s.journal.ranges.cached, *reqs[jReqs[k].idx].a) && jReqs[k].r.DictLength == verif_jrDictLen(s.journal.ranges.novel, s.journal.ranges.cached, *reqs[jReqs[k].idx].a)
+
+// iterate: the scratch buffer is grown until the span fits before it is sliced to the span's length, for every
+// span length the index can hold
+//@ func (*archiveReader).iterate
+//@   property C06 C10
+//@   nopanic bounds
+//@   requires ar != nil && ar.indexReader != nil && ar.reader != nil && cb != nil && ctx != nil
+// the footer's section sizes describe a data section of less than 2^48 bytes (the loader does not compare them with
+// the file size; with an inconsistent footer the index fails to load before anything is walked)
+//@   requires ar.footer.dataSpan().length <= 1<<48
+//@ func (*archiveReader).tolerantIterate
+//@   property C10
+//@   nopanic bounds
+//@   requires ar != nil && ar.indexReader != nil && ar.reader != nil && cb != nil && errCb != nil && ctx != nil
+//@   requires ar.footer.dataSpan().length <= 1<<48
